@@ -6,6 +6,7 @@ import (
 	"fmt"
 	"net/url"
 	"reflect"
+	"strconv"
 )
 
 // Add-only export shims for the C19/C10 verification harness (config table, URL mapping,
@@ -68,9 +69,10 @@ func VerifConfigDump(cfg config) [][2]string {
 	return out
 }
 
-// VerifConfigFromPairs builds a config from the zero config: string fields are assigned directly
-// (so that values outside a field's choices, reachable through a settings file, can be
-// represented), the other kinds go through set.
+// VerifConfigFromPairs builds a config from the zero config by assigning the struct fields
+// directly (reflection), NOT through config.set: values outside a field's choices (reachable
+// through a settings file) can be represented, and the construction does not depend on the
+// parser under test. Values are the fmt.Sprint forms of the Go values.
 func VerifConfigFromPairs(pairs [][2]string) (config, error) {
 	var c config
 	for _, p := range pairs {
@@ -78,12 +80,26 @@ func VerifConfigFromPairs(pairs [][2]string) (config, error) {
 		if !ok || f.name != p[0] {
 			return c, fmt.Errorf("no field %q", p[0])
 		}
-		if _, isStr := c.fieldPtr(f).(*string); isStr {
-			reflect.ValueOf(&c).Elem().FieldByIndex(f.field.Index).SetString(p[1])
-			continue
-		}
-		if err := c.set(f, p[1]); err != nil {
-			return c, err
+		fv := reflect.ValueOf(&c).Elem().FieldByIndex(f.field.Index)
+		switch fv.Kind() {
+		case reflect.String:
+			fv.SetString(p[1])
+		case reflect.Int:
+			v, err := strconv.ParseInt(p[1], 10, 64)
+			if err != nil {
+				return c, err
+			}
+			fv.SetInt(v)
+		case reflect.Float64:
+			v, err := strconv.ParseFloat(p[1], 64)
+			if err != nil {
+				return c, err
+			}
+			fv.SetFloat(v)
+		case reflect.Bool:
+			fv.SetBool(p[1] == "true")
+		default:
+			return c, fmt.Errorf("unsupported kind %v", fv.Kind())
 		}
 	}
 	return c, nil
